@@ -163,7 +163,8 @@ def user_prefix(p):
 
 
 PROGRAMS = ["basic", "named-temporaries", "tagged-data-wrappers",
-            "size-params", "output-is-input", "reductions"]
+            "size-params", "output-is-input", "aliased-outputs",
+            "reductions"]
 
 
 def mk_program(which):
@@ -195,6 +196,10 @@ def mk_program(which):
         data = []
     elif which == "output-is-input":
         out = {"o": x, "p": y + z + w1 + w2}
+    elif which == "aliased-outputs":
+        # one array / one input under several keys: every key is an output
+        s_ = x + y
+        out = {"a": s_, "b": s_, "c": z, "d": z, "e": s_ * w1 + w2}
     else:
         t = pt.sum(pt.make_placeholder("A", (4, 4)) * x, axis=1)
         out = {"o": t + pt.sum(y) + z + w1 + w2, "acc_o": pt.amax(x)}
